@@ -123,6 +123,13 @@ func (f *compressFilter) Do(cmd string, req *simpleRequest) FilterStatus {
 		return Continue
 	}
 
+	// The request is resent after a redirection, its values have already been
+	// compressed and the decompression hook has already been registered.
+	if req.cpsDone {
+		return Continue
+	}
+	req.cpsDone = true
+
 	// register decompression hook if needed.
 	if _, ok := wkSkipCheckCmdsInDecps[cmd]; !ok {
 		req.RegisterHook(func(request *simpleRequest) {
